@@ -26,6 +26,24 @@ def replay(prop, path):
     import pengine as P
     import refsem as R
     b = P.Bridge()
+    if r.get("engine") == "M":
+        i = r["inputs"]
+        j = {"job": "paginate", "len": i["len"]}
+        if i.get("limit") is not None:
+            j["limit"] = i["limit"]
+        if i.get("offset") is not None:
+            j["offset"] = i["offset"]
+        rr = b.job(j)
+        b.close()
+        st = i.get("offset") or 0
+        want = list(range(i["len"]))[st:]
+        want = want if i.get("limit") is None else want[:i["limit"]]
+        got = "panic" if rr.get("panic") else rr.get("rows")
+        print("native:", got, "expected:", want)
+        if got != want:
+            print(f"VIOLATION property={prop} replay={path}")
+            return 1
+        return 0
     try:
         kind = r.get("kind")
         if kind == "vs_reference":
